@@ -132,26 +132,39 @@ def zoneTokens (d : Desc) (zone : String) : List (Nat × Inst) := tokenInsts (d.
 last — outside the rings the properties quantify over.) -/
 def instanceByToken (d : Desc) (t : Nat) : Option Inst := d.find? (fun i => i.tokens.contains t)
 
-/-- the zone's token list with the flags `info.InstanceID == instanceID`; `none` = some token of the
-list has no entry in `ringInstanceByToken` (the `ErrInconsistentTokensInfo` returns). -/
-def zoneFlagsOf (d : Desc) (toks : List Nat) (id : String) : Option (List (Nat × Bool)) :=
-  toks.mapM fun t => (instanceByToken d t).map fun i => (t, i.id == id)
+/-- the zone's token list with the flags `info.InstanceID == instanceID`, looked up in the cached index
+`byToken` (= `r.ringInstanceByToken`); `none` = some token of the list has no entry (the
+`ErrInconsistentTokensInfo` returns). -/
+def zoneFlagsIdx (byToken : Nat → Option Inst) (toks : List Nat) (id : String) : Option (List (Nat × Bool)) :=
+  toks.mapM fun t => (byToken t).map fun i => (t, i.id == id)
 
-/-- `GetTokenRangesForInstance` with the walk as a parameter (the code: `instRangesOf`;
-before fix 9068690: `instRangesOfOld`). -/
-def rangesForInstanceWith (walk : List (Nat × Bool) → List Nat) (d : Desc) (zoneAware : Bool) (rf : Nat)
+/-- … with the index `setRingStateFromDesc` builds from the descriptor -/
+def zoneFlagsOf (d : Desc) (toks : List Nat) (id : String) : Option (List (Nat × Bool)) :=
+  toks.mapM fun t => (instanceByToken d t).map fun i => (t, i.id == id)     -- = zoneFlagsIdx (instanceByToken d) toks id
+
+/-- `GetTokenRangesForInstance` over the ring's CACHED state, the caches being explicit arguments:
+`numZones = len(r.ringTokensByZone)`, `tokensByZone = r.ringTokensByZone`, `byToken = r.ringInstanceByToken`
+(in the code they are fields refreshed together by `setRingStateFromDesc`; nothing in this function makes
+them agree). `walk`: the code (`instRangesOf`) or the walk before fix 9068690 (`instRangesOfOld`). -/
+def rangesForInstanceIdx (walk : List (Nat × Bool) → List Nat) (d : Desc) (numZones : Nat)
+    (tokensByZone : String → List Nat) (byToken : Nat → Option Inst) (zoneAware : Bool) (rf : Nat)
     (id : String) : Except Err (List Nat) :=
   match d.get? id with
   | none => .error .notFound
   | some inst =>
     if inst.zone == "" then .error .zoneNotSet
-    else if !zoneAware || rf != (zonesOf d).length then .error .badConfig
+    else if !zoneAware || rf != numZones then .error .badConfig
     else
-      let toks := (zoneTokens d inst.zone).map (·.1)      -- r.ringTokensByZone[instance.Zone]
+      let toks := tokensByZone inst.zone                   -- r.ringTokensByZone[instance.Zone]
       if toks.isEmpty then .error .noTokensForZone
-      else match zoneFlagsOf d toks id with
+      else match zoneFlagsIdx byToken toks id with
         | none => .error .inconsistent                     -- ErrInconsistentTokensInfo
         | some zt => .ok (walk zt)
+
+/-- the function on a ring whose caches were all built from its descriptor (`setRingStateFromDesc`) -/
+def rangesForInstanceWith (walk : List (Nat × Bool) → List Nat) (d : Desc) (zoneAware : Bool) (rf : Nat)
+    (id : String) : Except Err (List Nat) :=
+  rangesForInstanceIdx walk d (zonesOf d).length (fun z => (zoneTokens d z).map (·.1)) (instanceByToken d) zoneAware rf id
 
 /-- `Ring.GetTokenRangesForInstance` -/
 def rangesForInstance := rangesForInstanceWith instRangesOf
@@ -245,17 +258,22 @@ def rangesForPartition (d : PDesc) (pid : Int) : Except Err (List Nat) :=
 /-- `partitionByToken()[token]` -/
 def partitionByToken (d : PDesc) (t : Nat) : Option Int := (d.parts.find? (·.tokens.contains t)).map (·.id)
 
-/-- `buildRingTokenPartitionLookups` (called by `NewPartitionRing`): for every ring token the owning
-partition id and its active flag; `ErrInconsistentTokensInfo` if a token has no partition or the partition
-id is not in the map. -/
-def buildLookups (d : PDesc) : Except Err (List (Nat × Int × Bool)) :=
-  d.ringTokens.mapM fun t =>
-    match partitionByToken d t with
+/-- `buildRingTokenPartitionLookups(ringTokens, partitionByToken, partitions)` with its three arguments explicit:
+for every ring token the owning partition id and its active flag; `ErrInconsistentTokensInfo` if a token has
+no entry in `partitionByToken` or the partition id is not in `partitions`. -/
+def buildLookupsIdx (ringTokens : List Nat) (byToken : Nat → Option Int) (getPart : Int → Option Part) :
+    Except Err (List (Nat × Int × Bool)) :=
+  ringTokens.mapM fun t =>
+    match byToken t with
     | none => .error .inconsistent
     | some pid =>
-      match d.get? pid with
+      match getPart pid with
       | none => .error .inconsistent
       | some p => .ok (t, pid, p.isActive)
+
+/-- as `NewPartitionRing` calls it: all three derived from the one descriptor -/
+def buildLookups (d : PDesc) : Except Err (List (Nat × Int × Bool)) :=
+  buildLookupsIdx d.ringTokens (partitionByToken d) d.get?
 
 /-- `ActivePartitionForKey`: from `searchToken`, walk at most `len` steps, return the first
 partition whose parallel active flag is set. -/
